@@ -1250,6 +1250,12 @@ def run(ck: Check):
         for tr in itertools.product(core, repeat=3):
             handle([dict(o) for o in tr], "exhaustive-small/len3", small=True)
 
+    import c11_scan
+
+    ck.extra["tensor_constructors_without_dtype_or_device"] = c11_scan.scan(REPO, [
+        "torchtree/core/model.py", "torchtree/core/parametric.py", "torchtree/core/parameter.py", "torchtree/core/container.py",
+        "torchtree/evolution/tree_model.py", "torchtree/evolution/site_model.py", "torchtree/distributions/tree_prior.py",
+        "torchtree/evolution/substitution_model/codon.py"])
     if drv:
         drv.close()
 
